@@ -46,7 +46,7 @@ TRUSTED = [
     "the int64 run of the same operation is the reference for leg C; NumPy's own dense semantics are the business of C01-C10",
 ]
 DEADLINE_QUICK = 1500
-DEADLINE_THOROUGH = 3000
+DEADLINE_THOROUGH = 7200
 
 # operation groups of leg C: each (dtype, group) pair is one worker process (numba compiles per coordinate dtype)
 GROUPS = {
